@@ -4,6 +4,8 @@ import (
 	"context"
 	"errors"
 	"fmt"
+	"math"
+	"math/big"
 
 	"go.etcd.io/bbolt"
 )
@@ -115,7 +117,18 @@ func (p *PPM) Value() int64 {
 
 // Compute calculates the premium in satoshis for a given amount in satoshis.
 func (p *PPM) Compute(amtSat uint64) (sat int64) {
-	return int64(amtSat) * p.ppmValue / premiumRateParts
+	// int64(amtSat) * ppm overflows for large amounts (from about 92k BTC at
+	// 100%), which silently turned the premium negative. Use a wide
+	// intermediate and saturate what an int64 can not represent.
+	product := new(big.Int).Mul(new(big.Int).SetUint64(amtSat), big.NewInt(p.ppmValue))
+	product.Quo(product, big.NewInt(premiumRateParts))
+	if !product.IsInt64() {
+		if product.Sign() < 0 {
+			return math.MinInt64
+		}
+		return math.MaxInt64
+	}
+	return product.Int64()
 }
 
 // Premium rate operations
